@@ -1,3 +1,5 @@
--- This module serves as the root of the `HgVerif` library.
--- Import modules here that should be built as part of the library.
-import HgVerif.Basic
+-- Root of the `HgVerif` library: models, lemmas and property theorems.
+import HgVerif.Driver.Proto
+import HgVerif.Model.NodeSched
+import HgVerif.Lemmas.NodeSched
+import HgVerif.Props.C18
